@@ -22,6 +22,7 @@ PROPS["C12"] = {
         ]},
         {"pkg": "input", "hdir": "input", "specs": [
             _c12("udp/L<=4", "VerifC12UDP", {"L": "4"}),
+            _c12("udp/receive-loop", "VerifC12UDPLoop", {"L": "3"}),
             _c12("amqp/L<=4", "VerifC12AMQP", {"L": "4"}),
             _c12("limit/tcp-65535", "VerifC12Limits", {"path": "tcp"}),
             _c12("limit/udp-65535", "VerifC12Limits", {"path": "udp"}),
